@@ -46,13 +46,12 @@ EndOK == /\ Rec[k].out.stable = "T"
          /\ ParseOK(Render(e), Rec[k].out.reparse)
          /\ Completed(e) => "ok" \in DOMAIN Rec[k].out.reparse     \* complete entries round-trip
 
-Reject == /\ l # Done
-          /\ \/ (Rec[k].op = "sumhist" /\ ~IsHist)
-             \/ (IsHist /\ l <= Len(Steps) /\ ~StepOK)
-             \/ (IsHist /\ l = Len(Steps) + 1 /\ ~EndOK)
-             \/ (Rec[k].op = "sumparse" /\ ~ParseOK(Rec[k].in.text, Rec[k].out))
-             \/ Rec[k].op \notin {"sumhist", "sumparse"}
+Step == TraceCall
+Terminal == IF Rec[k].op = "sumhist" THEN IsHist /\ l = Len(Steps) + 1 /\ EndOK
+            ELSE Rec[k].op = "sumparse" /\ ParseOK(Rec[k].in.text, Rec[k].out)
+\* rejected: no specified step explains the next logged call, or the end conditions fail
+Reject == /\ l # Done /\ ~ENABLED Step /\ ~Terminal
           /\ PrintT(<<"MISMATCH", k, "base">>)
           /\ l' = Done /\ UNCHANGED <<k, e>>
-Next == TraceCall \/ Reject
+Next == Step \/ Reject
 =============================================================================
